@@ -126,15 +126,47 @@ def run(ctx):
             break
     ok = prefix_read is not None and _fold(prog, stream_m, prefix_read.value.args[0]) == n
     ctx.check(ok, "R4.3", "read:prefix-size", f"prefix read does not request {n} bytes", rd, f"fp.read({n})")
-    tests = [st for st in walk_no_nested(rd) if isinstance(st, ast.If) and isinstance(st.test, ast.Compare) and norm(st.test.left) == f"len({pvar})"
-             and st.body and isinstance(st.body[-1], ast.Raise)]
-    good = bool(tests) and isinstance(tests[0].test.ops[0], (ast.NotEq, ast.Lt)) and _fold(prog, stream_m, tests[0].test.comparators[0]) == n \
-        and "EOFError" in norm(tests[0].body[-1])
-    ctx.check(good, "R4.3", "read:short-prefix-test", "a short length prefix is not turned into EOFError by `len(d) != size`", rd, f"len({pvar}) != {n} -> raise EOFError",
-              key="R4.3:read:short-prefix-test")
-    if tests and prefix_read is not None:
-        ctx.check(rcfg.dominates(rcfg.node_of(tests[0]).id, rcfg.node_of(ups[0]).id), "R4.3", "read:test-before-unpack", "the prefix is unpacked before its length is tested", rd,
-                  "test dominates struct.unpack")
+    # a prefix that is not exactly n bytes long must end in EOFError before anything is unpacked: explore read() from the prefix read
+    # under the assumption len(prefix) != n (shorter)
+    from .. import logic as _lg
+
+    def short_valuation(atom):
+        try:
+            e = ast.parse(atom, mode="eval").body
+        except SyntaxError:
+            return None
+        if isinstance(e, ast.Compare) and len(e.ops) == 1:
+            l, r = e.left, e.comparators[0]
+            for a, b, flip in ((l, r, False), (r, l, True)):
+                if norm(a) == f"len({pvar})" and _fold(prog, stream_m, b) == n:
+                    op = type(e.ops[0])
+                    if op is ast.Eq:
+                        return False
+                    if op is ast.Lt:
+                        return not flip  # len(d) < n  is true for a short prefix;  n < len(d)  is false
+                    if op is ast.Gt:
+                        return flip
+        if norm(e) == pvar:
+            return None
+        return None
+
+    good = False
+    why = "a short length prefix is not turned into EOFError by `len(d) != size`"
+    if prefix_read is not None:
+        start = rcfg.node_of(prefix_read).id
+        reach = set()
+        for v, _ in rcfg.succ[start]:
+            reach |= _lg.reachable_assuming(rcfg, v, short_valuation)
+        unpack_reached = rcfg.node_of(ups[0]).id in reach
+        normal_exit = rcfg.exit in reach
+        raises = [rcfg.nodes[i].ast for i in reach if rcfg.nodes[i].ast is not None and isinstance(rcfg.nodes[i].ast, ast.Raise)]
+        eof_only = bool(raises) and all(r.exc is not None and norm(r.exc.func if isinstance(r.exc, ast.Call) else r.exc) == "EOFError" for r in raises)
+        good = not unpack_reached and not normal_exit and eof_only
+        if unpack_reached:
+            why = "the prefix is unpacked although fewer than the required bytes were read (a stream ending inside the prefix is not a clean end)"
+        elif not eof_only:
+            why = "a short length prefix does not raise EOFError (the reader's loop ends cleanly only on EOFError)"
+    ctx.check(good, "R4.3", "read:short-prefix-test", why, rd, f"len({pvar}) != {n} -> raise EOFError, before the prefix is unpacked", key="R4.3:read:short-prefix-test")
     # body read and hand-over to the decoder
     decs = [c for c in calls_in(rd) if isinstance(c.func, ast.Attribute) and c.func.attr == "unpack" and "packer" in norm(c.func.value)]
     if not decs:
